@@ -37,6 +37,18 @@ def syncOps : List String :=
    "notify_all",                                      -- finished-check
    "wait"]                                            -- nothing to pop
 
+/-- the wiring of `caobab::solve`, token by token (parameter list and body, comments stripped): the
+    parameters `rooms`, `report_no_solution`, `num_threads`; `let … = precompute_problem(…, rooms)`;
+    `bab::solve(` closure → `run_bab_node(…, report_no_solution)`, root `BABNode { … }` (the return
+    type names `BABNode` first), `num_threads )`. The caobab-level theorems are about the engine
+    instantiated with exactly this solver (`N2.solverOf`): the node solver is `run_bab_node` on the
+    precomputed problem and nothing else, the worker count reaches only the engine -/
+def solveWiring : List String :=
+  ["rooms", "report_no_solution", "num_threads", "let", "precompute_problem", "rooms", "bab::solve", "BABNode",
+   "run_bab_node", "report_no_solution", "BABNode", "num_threads"]
+
+theorem solve_wiring_tie : Const.CAOBAB_SOLVE_WIRING = solveWiring := rfl
+
 theorem sync_tie :
     Const.BAB_SHARED_FIELDS = sharedFields ∧ Const.BAB_SYNC_IMPORTS = syncImports ∧
     Const.BAB_SYNC_OPS = syncOps ∧ Const.BAB_SYNC_OTHER = [] ∧ Const.BAB_SHARED_TYPES = sharedTypes :=
